@@ -81,12 +81,17 @@ fn subset_with_offset_type<OffsetType: GvarOffset>(
     let off_size = size_of::<OffsetType>();
 
     let glyph_var_data_offset_array_size = (num_glyphs as u32 + 1) * off_size as u32;
-    let shared_tuples_offset =
-        if gvar.shared_tuple_count() == 0 || gvar.shared_tuples_offset().is_null() {
-            0_u32
-        } else {
-            FIXED_HEADER_SIZE + glyph_var_data_offset_array_size
-        };
+    // shared tuples are copied only when there are some and the source offset is usable
+    let has_shared_tuples =
+        gvar.shared_tuple_count() != 0 && !gvar.shared_tuples_offset().is_null();
+    // A null offset is a read error for readers that resolve the offset before looking at the
+    // count (read-fonts does, and then ignores every glyph's variations): with a count of 0 the
+    // offset still points at the place where the (empty) array would be.
+    let shared_tuples_offset = if gvar.shared_tuple_count() != 0 && !has_shared_tuples {
+        0_u32
+    } else {
+        FIXED_HEADER_SIZE + glyph_var_data_offset_array_size
+    };
 
     //update sharedTuplesOffset, which is of Offset32 type and byte position in gvar is 8..12
     s.copy_assign(
@@ -96,7 +101,12 @@ fn subset_with_offset_type<OffsetType: GvarOffset>(
 
     // calculate glyphVariationDataArrayOffset: put the glyphVariationData at last in the table
     // 2 * 0xFFFF * 0xFFFF does not fit in u32: size in usize, offset checked
-    let shared_tuples_size = 2 * gvar.axis_count() as usize * gvar.shared_tuple_count() as usize;
+    // nothing is written (and nothing must be skipped) when the tuples are not copied
+    let shared_tuples_size = if has_shared_tuples {
+        2 * gvar.axis_count() as usize * gvar.shared_tuple_count() as usize
+    } else {
+        0
+    };
     let glyph_var_data_offset = u32::try_from(
         FIXED_HEADER_SIZE as usize + glyph_var_data_offset_array_size as usize + shared_tuples_size,
     )
@@ -111,7 +121,7 @@ fn subset_with_offset_type<OffsetType: GvarOffset>(
         .map_err(|_| SubsetError::SubsetTableError(Gvar::TAG))?;
 
     // shared tuples array
-    if shared_tuples_offset > 0 {
+    if has_shared_tuples {
         let offset = gvar.shared_tuples_offset().to_u32() as usize;
         let shared_tuples_data = gvar
             .offset_data()
